@@ -306,7 +306,8 @@ pub fn run(ctx: &Ctx, rep: &Report) {
     rep.eval(total_trans);
     rep.nontriv(total_states);
     rep.merge_outcomes(&outcomes);
-    rep.set_bound(&format!("complete reachable state graph for 0..={max_n} rows over {} events from every consistent start; un-abstracted sequences to depth {depth}", alpha.len()));
+    rep.set_bound(&format!("complete reachable state graph for 0..={max_n} rows over {} events from every consistent start; un-abstracted sequences to depth {depth}; update+draw BFS to depth {} with 0/1/3/4 aircraft", alpha.len(), if ctx.thorough() { 7 } else { 4 }));
+    run_render(ctx, rep);
 }
 
 #[allow(clippy::too_many_arguments)]
@@ -342,6 +343,12 @@ fn dfs(
 
 /// Replay: {"state": .., "events": [names]} applied from the state.
 pub fn replay(w: &Value, rep: &Report) {
+    if w["kind"].as_str() == Some("render") {
+        replay_render(w, rep);
+        rep.sample(w.clone());
+        rep.outcome("replayed", 1);
+        return;
+    }
     let mut s = St::from_json(&w["state"]);
     let evs: Vec<String> = w["events"].as_array().map(|a| a.iter().filter_map(|x| x.as_str().map(String::from)).collect()).unwrap_or_default();
     for name in evs {
@@ -362,4 +369,225 @@ pub fn replay(w: &Value, rep: &Report) {
     }
     rep.sample(w.clone());
     rep.outcome("replayed", 1);
+}
+
+// ---------------------------------------------------------------------------
+// Phase 2: the handler together with the real renderer (table::build_table on a
+// ratatui TestBackend), as the TUI task runs them: update(event) then draw.
+// Rendering recomputes the rows from the state vectors and the search query, so
+// the number of rows changes while keys are pressed.
+
+use crate::snapshot::{Snapshot, StateVectors};
+use ratatui::backend::TestBackend;
+use ratatui::Terminal;
+use rs1090::decode::SensorMetadata;
+
+#[derive(Clone, PartialEq, Eq, PartialOrd, Ord, Debug)]
+pub struct St2 {
+    pub total: usize,
+    pub core: St,
+}
+
+fn fleet(n: usize) -> std::collections::BTreeMap<String, StateVectors> {
+    let now = std::time::SystemTime::now().duration_since(std::time::UNIX_EPOCH).map(|d| d.as_secs()).unwrap_or(0);
+    let specs = [("4840d6", Some("KLM1023"), Some("PH-BXA"), Some("B738")), ("a0b1c2", Some("N12345"), Some("N12345"), None), ("3c6444", None, Some("D-AIBD"), Some("A319")), ("4ca4ed", Some("RYR4AX"), None, Some("B38M"))];
+    let mut m = std::collections::BTreeMap::new();
+    for (i, (icao, cs, reg, tc)) in specs.iter().take(n).enumerate() {
+        let cur = Snapshot {
+            icao24: icao.to_string(),
+            firstseen: now.saturating_sub(100),
+            // in the future: the row never ages out during the run
+            lastseen: now + 3600,
+            callsign: cs.map(String::from),
+            registration: reg.map(String::from),
+            typecode: tc.map(String::from),
+            squawk: None,
+            latitude: Some(43.5 + i as f64),
+            longitude: Some(1.5),
+            altitude: Some(30000 + 1000 * i as u16),
+            selected_altitude: Some(30000),
+            groundspeed: Some(400.0),
+            vertical_rate: Some(-64 * i as i16),
+            track: Some(90.0),
+            ias: Some(250),
+            tas: Some(420),
+            mach: Some(0.78),
+            roll: Some(0.0),
+            heading: Some(91.0),
+            nacp: Some(9),
+            count: 10 + i,
+            metadata: vec![SensorMetadata { system_timestamp: now as f64, gnss_timestamp: None, nanoseconds: None, rssi: None, serial: 1, name: Some("toulouse".to_string()) }],
+        };
+        m.insert(icao.to_string(), StateVectors { cur, hist: vec![] });
+    }
+    m
+}
+
+fn build2(s: &St2) -> Jet1090 {
+    let mut j = build(&s.core);
+    j.state_vectors = fleet(s.total);
+    j
+}
+
+/// update(event) followed by a draw, each guarded. Returns the state after the draw.
+fn step2(s: &St2, ev: Event) -> Result<St2, String> {
+    let m = tokio::sync::Mutex::new(build2(s));
+    let mut g = m.try_lock().expect("fresh mutex");
+    guarded(|| {
+        let _ = crate::update(&mut g, ev);
+    })
+    .map_err(|p| format!("update: {p}"))?;
+    let w = if g.width == 0 { 80 } else { g.width.min(260) };
+    guarded(|| {
+        let mut term = Terminal::new(TestBackend::new(w, 12)).expect("test terminal");
+        term.draw(|frame| crate::table::build_table(frame, &mut g)).map(|_| ())
+    })
+    .map_err(|p| format!("draw: {p}"))?
+    .map_err(|e| format!("draw: io error {e}"))?;
+    Ok(St2 { total: s.total, core: read_back(&g) })
+}
+
+fn alphabet2() -> Vec<(String, Event)> {
+    let mut v = Vec::new();
+    for c in ['j', 'k', 'g', 'q', 'a', 'c', '.', '-', '/', 'x', '4', '(', 'b'] {
+        v.push((format!("Char({c})"), Event::Key(KeyEvent::new(KeyCode::Char(c), KeyModifiers::NONE))));
+    }
+    for (n, k) in [("Esc", KeyCode::Esc), ("Enter", KeyCode::Enter), ("Backspace", KeyCode::Backspace), ("Up", KeyCode::Up), ("Down", KeyCode::Down), ("Home", KeyCode::Home)] {
+        v.push((n.to_string(), Event::Key(KeyEvent::new(k, KeyModifiers::NONE))));
+    }
+    for w in [60u16, 75, 95, 115, 125, 200] {
+        v.push((format!("Tick({w})"), Event::Tick(w)));
+    }
+    v
+}
+
+/// the matching rows a correct renderer must show for a query
+fn expected_rows(total: usize, query: &str) -> Option<usize> {
+    let q = query.to_lowercase().replace('-', "");
+    let re = regex::Regex::new(&q).or_else(|_| regex::Regex::new("")).ok()?;
+    let f = fleet(total);
+    Some(
+        f.values()
+            .filter(|sv| {
+                sv.cur.callsign.as_ref().is_some_and(|s| re.is_match(&s.to_lowercase()))
+                    || re.is_match(&sv.cur.icao24.to_lowercase())
+                    || sv.cur.typecode.as_ref().is_some_and(|s| re.is_match(&s.to_lowercase()))
+                    || sv.cur.registration.as_ref().is_some_and(|s| re.is_match(&s.replace('-', "").to_lowercase()))
+                    || sv.cur.metadata.iter().any(|m| m.name.as_ref().is_some_and(|n| re.is_match(&n.to_lowercase())))
+            })
+            .count(),
+    )
+}
+
+pub fn run_render(ctx: &Ctx, rep: &Report) {
+    let alpha = alphabet2();
+    let depth = if ctx.thorough() { 7 } else { 4 };
+    let mut total_states = 0u64;
+    let mut total_trans = 0u64;
+    for total in [0usize, 1, 3, 4] {
+        let s0 = St2 { total, core: St { n: 0, sel: Some(0), quit: false, search: false, sort: 3, asc: false, query: String::new(), width: 0 } };
+        let mut seen: BTreeSet<St2> = BTreeSet::new();
+        let mut frontier: Vec<(St2, Vec<String>)> = vec![(s0.clone(), vec![])];
+        seen.insert(s0);
+        let mut trans = 0u64;
+        for _d in 0..depth {
+            let found: std::sync::Mutex<Vec<(St2, Vec<String>)>> = std::sync::Mutex::new(Vec::new());
+            let tcount = std::sync::atomic::AtomicU64::new(0);
+            par_items(ctx.threads, frontier.len(), |fi| {
+                let (s, path) = &frontier[fi];
+                if stopped() {
+                    return;
+                }
+                let mut local = Vec::new();
+                for (name, ev) in &alpha {
+                    // bound the query length (the only unbounded component)
+                    if s.core.search && name.starts_with("Char(") && s.core.query.chars().count() >= 3 {
+                        continue;
+                    }
+                    let r = step2(s, *ev);
+                    tcount.fetch_add(1, std::sync::atomic::Ordering::Relaxed);
+                    let mut p2 = path.clone();
+                    p2.push(name.clone());
+                    let wit = json!({"kind": "render", "aircraft": total, "events": p2});
+                    match r {
+                        Err(p) => {
+                            let site = if p.starts_with("draw") { "draw" } else { "update" };
+                            rep.violation(&format!("panic:{site}:{}:{}", last_panic_file(), panic_class(&p)), format!("{p} (at {}) after {:?} with {total} aircraft", last_panic_loc(), p2), wit);
+                        }
+                        Ok(t) => {
+                            // after a draw the rows are those matching the query, and the selection is inside them
+                            if let Some(want) = expected_rows(total, &t.core.query) {
+                                if t.core.n != want {
+                                    rep.violation("render:rows", format!("query {:?} over {total} aircraft shows {} rows, {want} match", t.core.query, t.core.n), wit.clone());
+                                }
+                            }
+                            match t.core.sel {
+                                Some(i) if t.core.n == 0 || i >= t.core.n => {
+                                    rep.violation("render:selection-out-of-range", format!("after {:?} the selected index is {i} with {} rows", p2, t.core.n), wit.clone());
+                                }
+                                _ => {}
+                            }
+                            // flag rules as in phase 1 (rows may change, selection is judged above)
+                            let mut a = s.core.clone();
+                            let mut b = t.core.clone();
+                            a.n = 0;
+                            b.n = 0;
+                            a.sel = None;
+                            b.sel = None;
+                            if let Some((class, what)) = judge(&a, name, &Ok(b)) {
+                                rep.violation(&format!("render:{class}"), what, wit.clone());
+                            }
+                            local.push((t, p2));
+                        }
+                    }
+                }
+                found.lock().unwrap().extend(local);
+            });
+            trans += tcount.load(std::sync::atomic::Ordering::Relaxed);
+            let mut cand = found.into_inner().unwrap();
+            // deterministic choice of the path kept for a state
+            cand.sort();
+            let mut next = Vec::new();
+            for (t, p2) in cand {
+                if seen.insert(t.clone()) {
+                    next.push((t, p2));
+                }
+            }
+            frontier = next;
+        }
+        rep.part(&format!("update+draw, {total} aircraft"), trans, json!({"states": seen.len(), "depth": depth}));
+        total_states += seen.len() as u64;
+        total_trans += trans;
+    }
+    rep.state(total_states);
+    rep.trans(total_trans);
+    rep.eval(total_trans);
+    rep.nontriv(total_states);
+    rep.sample(json!({"kind": "render", "aircraft": 3, "events": ["Char(/)", "Char(x)", "Enter", "Char(j)"]}));
+}
+
+pub fn replay_render(w: &Value, rep: &Report) {
+    let total = w["aircraft"].as_u64().unwrap_or(0) as usize;
+    let mut s = St2 { total, core: St { n: 0, sel: Some(0), quit: false, search: false, sort: 3, asc: false, query: String::new(), width: 0 } };
+    let alpha = alphabet2();
+    for name in w["events"].as_array().map(|a| a.iter().filter_map(|x| x.as_str()).collect::<Vec<_>>()).unwrap_or_default() {
+        let Some((_, ev)) = alpha.iter().find(|(n, _)| n == name) else { continue };
+        match step2(&s, *ev) {
+            Ok(t) => {
+                if let Some(i) = t.core.sel {
+                    if t.core.n == 0 || i >= t.core.n {
+                        rep.violation("render:selection-out-of-range", format!("selected index {i} with {} rows", t.core.n), w.clone());
+                    }
+                }
+                s = t;
+            }
+            Err(p) => {
+                let site = if p.starts_with("draw") { "draw" } else { "update" };
+                rep.violation(&format!("panic:{site}:{}:{}", last_panic_file(), panic_class(&p)), p, w.clone());
+                break;
+            }
+        }
+        rep.trans(1);
+    }
+    rep.state(1);
 }
